@@ -190,7 +190,10 @@ func (t *tracingResponseWriter) tryFinish(err error) {
 
 	t.finished = true
 	t.dataTracer.emitUnfinished()
-	t.setTrailers()
+	// The trailers live in the response that the trace refers to. If the trace
+	// was already completed (e.g. the request was canceled or its body failed),
+	// it has been handed to the collector and must no longer be modified.
+	t.builder.whileBuilding(t.setTrailers)
 	t.builder.add(&ResponseBodyEnd{Err: err})
 }
 
